@@ -632,3 +632,16 @@ crate::verif_harness! {
         }
     }
 }
+
+// ---- access points for Engine X (private kernels) ------------------------------------------------
+pub(crate) fn soft_light_kernel(b: i32, s: i32) -> i32 {
+    blend_soft_light(b, s)
+}
+pub(crate) fn hsl_baseline(mode: u16, b: Color8, s: Color8, o: u8) -> Color8 {
+    match mode {
+        12 => hsl_hue_baseline(b, s, o),
+        13 => hsl_saturation_baseline(b, s, o),
+        14 => hsl_color_baseline(b, s, o),
+        _ => hsl_luminosity_baseline(b, s, o),
+    }
+}
